@@ -268,9 +268,19 @@ fn inner_extend_token<'a>(
             oq3_lexer::TokenKind::Pragma => PRAGMA,
             oq3_lexer::TokenKind::Annotation => ANNOTATION,
 
-            oq3_lexer::TokenKind::Literal { kind, .. } => {
+            oq3_lexer::TokenKind::Literal { kind, suffix_start } => {
                 //                    self.extend_literal(token_text.len(), kind);
-                return extend_literal_func(token_text.len(), kind);
+                let (err, syntax_kind, len) = extend_literal_func(token_text.len(), kind);
+                // The lexer attaches an identifier that directly follows the closing quote to
+                // the literal as a suffix. String and bit string literals take no suffix.
+                let takes_no_suffix = matches!(
+                    kind,
+                    oq3_lexer::LiteralKind::Str { .. } | oq3_lexer::LiteralKind::BitStr { .. }
+                );
+                if takes_no_suffix && err.is_empty() && (*suffix_start as usize) < token_text.len() {
+                    return ("Invalid suffix on string literal", syntax_kind, len);
+                }
+                return (err, syntax_kind, len);
             }
 
             oq3_lexer::TokenKind::Semi => T![;],
